@@ -1071,6 +1071,11 @@ func (e *Evaluator) evalRules(rules []*Rule) error {
 		match := true
 		if rule.Pattern != nil {
 			cell, err := e.evalExpr(rule.Pattern)
+			if err == errNext {
+				// next inside a pattern (in a match body or a called function)
+				// abandons the element like next in a rule body
+				return nil
+			}
 			if err != nil {
 				return err
 			}
